@@ -4,6 +4,7 @@ EXTENDS Integers
 (* Toy: b = 2 a, c = 3 b, c = 6 a (consistent: ln 2 + ln 3 = ln 6 on the 1e-6 lattice).          *)
 DRoots == {"a"}
 DBases == {"a", "b", "c"}
+DClasses == {{"a", "b", "c"}}
 DDecls == << [lat |-> 693147, t |-> {<<"b", 1>>, <<"a", -1>>}], [lat |-> 1098612, t |-> {<<"c", 1>>, <<"b", -1>>}],
              [lat |-> 1791759, t |-> {<<"c", 1>>, <<"a", -1>>}] >>
 ====
